@@ -634,6 +634,12 @@ class DefaultCodec(Codec):
             # If a merge parent is set, merge index with parent:
             # noinspection PyProtectedMember
             merge_parent = obj._merge_parent
+            if merge_parent is None and isinstance(obj, DefaultCodec.PicklePartition):
+                # A partition that was read back from the store keeps the entries it inherited
+                # from its parents in its own index. When it is stored again (a function that
+                # returns a partition obtained from another function), it serves as its own
+                # parent so that those entries are carried over.
+                merge_parent = obj
             if merge_parent:
                 if isinstance(merge_parent, DefaultCodec.PicklePartition):
                     pickle_partition_parent = cast(
